@@ -5,12 +5,13 @@ prop("C01",
                 "pods with a common address are the same pod - corollary of the C04 ownership invariant and "
                 "key_injective_on_pod_identity), handed_ip_is_not_free_partial, fact_*. Counter theorem no_shared_ip_counter "
                 "(model without the unbind UID guard: D2 two moves later, replay corpus/C01/d2-shared.ops).",
-     level_note="_partial: carries C04's side conditions (Galaxy.Plugin.assumed) and therefore its two known findings: after a "
-                "stale-lister bind or with a stale record under the key the live pod's address is freed and handed to the next "
-                "pod (corpus/C01/*-shared-ip.ops reproduce it on the real code). unique_owner is proved under the same side "
-                "conditions although only the reload-delete-fault condition matters for it. "
-                "A reload that removes an address a live pod holds and a later reload that adds it again hand the address to a "
-                "second pod: excluded by the reload side condition (operator error; theorem and monitor exempt it, like C04).",
+     level_note="_partial: same scope as C04 (non-empty names, bind requests carry the pod UID, reloads keep live pods' addresses "
+                "configured - otherwise operator error: an address removed while in use and added again is handed out again; "
+                "theorem and monitor exempt it). C01's quantifier includes 'any single API call failing': all fault positions "
+                "of all moves are covered EXCEPT a failing store delete inside ConfigurePool, which breaks the property on the "
+                "real code (known finding ip-handed-to-two-live-pods:cause=reload-delete-fault-resurrects-stale-record, replay "
+                "corpus/C01/reload-delete-fault-shared-ip.ops). The two C04 defects found earlier are fixed; their replays are "
+                "regression histories.",
      technique="Lean 4 inductive invariant over an executable model + regenerated structural facts (factgen plugin) + differential "
                "correspondence with the REAL FloatingIPPlugin (see C04); monitor = no address in the binding annotation of two "
                "live pods, IPAM dump lists every address once, FloatingIP objects and memory agree on key/uid/node/policy; "
